@@ -97,6 +97,14 @@ CHECKS = {
          'and the legacy args parser advances only to positions reported by its sub-parses.'),
    note='Equality of trees between legacy and new entry points on all inputs is not decided; only the wiring is.',
    technique='AST wiring/liveness analysis of the legacy shims, guard/use agreement, sibling-branch agreement, name agreement of legacy attributes'),
+ 'C11': dict(level='other', design='DESIGN.md section 5, C11',
+   text=('At every token construction site of the reader the width pos_end - pos is normalised (affine normaliser) and must '
+         'be positive; an effect analysis over LatexTokenReader and its base shows the peek family and all impl_* methods '
+         'never write the reader (directly or through self calls); next_token = peek + move_past of the same token; move '
+         'targets are tok.pos - len(pre_space) / tok.pos_end; the peeked whitespace is forwarded unchanged and wherever '
+         'pre/post space is cut at an index the matching position is recomputed with the same index; longest-match specials.'),
+   note='The concatenation identity over whole token sequences is a run-time statement and is not decided. Widths of four sites use reviewed lemmas (posi, environment name match, paragraph span, comment span).',
+   technique='affine normalisation of token spans, transitive self-write effect analysis, paired-truncation rule, shape rules on next/move methods'),
 }
 
 NOT_YET = {}
